@@ -10,7 +10,7 @@
 (* @V@ = a clause of C01 fails on the real execution; @D@ = the bytes are   *)
 (* not the tree the schema prescribes (wire drift, round trip intact);      *)
 (* @M@ = the harness produced an ill-typed value (machinery).               *)
-EXTENDS KmipSchema, Json, IOUtils
+EXTENDS SchemaRec, Json, IOUtils
 
 Recs == JsonDeserialize(IOEnv.TRACE_FILE)
 
@@ -58,6 +58,9 @@ Next == /\ ~done
                          d == Drift(r, wv) IN
                      /\ f # {} => PrintT("@V@" \o ToJson([id |-> r.id, fails |-> f]))
                      /\ d # {} => PrintT("@D@" \o ToJson([id |-> r.id, drift |-> d]))
+                     \* self-check of schema and hint-free recogniser against each other
+                     /\ (r.cls \in Classes /\ Rec(r.cls, wv, r.ver, "") # {}) =>
+                            PrintT("@D@" \o ToJson([id |-> r.id, drift |-> {"recogniser rejects the prescribed tree: " \o x : x \in Rec(r.cls, wv, r.ver, "")}]))
            ELSE LET f == AcceptFails(r) IN
                 f # {} => PrintT("@V@" \o ToJson([id |-> r.id, fails |-> f]))
         /\ done' = TRUE /\ n' = n
